@@ -128,6 +128,15 @@ func shapeDoc(s map[string]any, r *rand.Rand) *sbom.Document {
 			a.Identifiers = map[int32]string{-2: "x"}
 			a.ExternalReferences = []*sbom.ExternalReference{{Type: -1, Url: "u", Hashes: map[int32]string{-5: "h"}}}
 			nl.Nodes = []*sbom.Node{a, b, c}
+		case "protoids": // identifiers that start like generated ones without having their layout
+			b.Id, c.Id = "protobom-sbom", "protobom--"
+			nl.Nodes = []*sbom.Node{a, b, c, {Id: "protobom-", Name: "p"}, {Id: "protobom-auto", Name: "q"}, {Id: "protobom--auto--", Name: "s"}}
+		case "odd-urls": // locators that are text, not URLs
+			a.ExternalReferences = []*sbom.ExternalReference{{Type: sbom.ExternalReference_SECURITY_ADVISORY, Url: "see vendor note 12: fixed in 3.0.2"},
+				{Type: sbom.ExternalReference_SECURITY_FIX, Url: "https://e.org/%zz"}, {Type: sbom.ExternalReference_SECURITY_OTHER, Url: "http://host name:port/"},
+				{Type: sbom.ExternalReference_WEBSITE, Url: "://"}, {Type: sbom.ExternalReference_VCS, Url: "\x7f"}}
+			a.UrlHome, a.UrlDownload = "%", "http://[::1"
+			nl.Nodes = []*sbom.Node{a, b, c}
 		case "rich":
 			nl.Nodes = []*sbom.Node{randNode(r, "a", 0.9), b, randNode(r, "c", 0.9)}
 		default:
